@@ -16,5 +16,5 @@ CONSTANTS
 INIT Init
 NEXT NextCompact
 VIEW view
-INVARIANTS ReadsRight StaleIsError DiskIsOneState FlushNeverRefused OpensAfterRestart CommitDurable CapKeepsBranch CleanCoherent NeverTainted
+INVARIANTS ReadsRight StaleIsError DiskIsOneState FlushNeverRefused OpensAfterRestart RestartServesJournaled CommitDurable CapKeepsBranch CleanCoherent NeverTainted
 CHECK_DEADLOCK FALSE
